@@ -9,6 +9,7 @@ CONSTANTS
 INVARIANT L_Dom
 INVARIANT L_Refusals
 INVARIANT L_Copies
+INVARIANT L_Listed
 INVARIANT L_Positions
 INVARIANT L_Annotations
 INVARIANT L_Bonds
